@@ -74,6 +74,8 @@ class Tr:
         self.fail(e, "literal of unsupported type")
 
     def ex(self, e: ast.AST) -> str:
+        if isinstance(e, (ast.Subscript, ast.Attribute, ast.Call)) and ast.unparse(e) in self.env:
+            return self.env[ast.unparse(e)]      # a declared input written as a subscript / attribute chain / call
         d = dotted(e)
         if d is not None:
             if d in self.env:
@@ -119,6 +121,8 @@ class Tr:
                 return "(⟨" + ", ".join(rows) + "⟩ : M3 α)"
             if len(e.elts) == 3:
                 return "(⟨" + ", ".join(self.ex(c) for c in e.elts) + "⟩ : V3 α)"
+            if isinstance(e, ast.Tuple) and len(e.elts) == 2:
+                return "(" + ", ".join(self.ex(c) for c in e.elts) + ")"
             self.fail(e, "array literal that is neither 3 nor 3x3")
         self.fail(e, "expression form")
 
@@ -138,10 +142,28 @@ def find_function(tree: ast.Module, qual: str) -> ast.FunctionDef:
     return node
 
 
-def straight_line(fn: ast.FunctionDef) -> Tuple[List[Tuple[str, ast.AST]], Optional[ast.AST], set]:
+def flatten(body: List[ast.stmt], static: Dict[str, str]) -> List[ast.stmt]:
+    """resolve `if <input> == "<literal>": … else: …` for the inputs whose value the spec fixes (`static`)"""
+    out: List[ast.stmt] = []
+    for st in body:
+        if isinstance(st, ast.If) and isinstance(st.test, ast.Compare) and len(st.test.ops) == 1 \
+                and isinstance(st.test.ops[0], ast.Eq) and ast.unparse(st.test.left) in static \
+                and isinstance(st.test.comparators[0], ast.Constant):
+            taken = st.body if static[ast.unparse(st.test.left)] == st.test.comparators[0].value else st.orelse
+            out += flatten(taken, static)
+            if any(isinstance(x, ast.Return) for x in out):
+                break
+        else:
+            out.append(st)
+    return out
+
+
+def straight_line(fn: ast.FunctionDef, static: Optional[Dict[str, str]] = None) -> Tuple[List[Tuple[str, ast.AST]], Optional[ast.AST], set]:
     """top-level single assignments in order, the returned expression, and the names bound anywhere else"""
     binds: List[Tuple[str, ast.AST]] = []
     ret = None
+    body = flatten(fn.body, static or {})
+    fn = ast.FunctionDef(name=fn.name, args=fn.args, body=body, decorator_list=[], lineno=0, col_offset=0)
     for st in fn.body:
         if isinstance(st, ast.Assign) and len(st.targets) == 1:
             t = st.targets[0]
@@ -152,7 +174,7 @@ def straight_line(fn: ast.FunctionDef) -> Tuple[List[Tuple[str, ast.AST]], Optio
                     and all(isinstance(x, ast.Name) for x in t.elts):
                 binds += [(x.id, v) for x, v in zip(t.elts, st.value.elts)]
                 continue
-        if isinstance(st, ast.Return):
+        if isinstance(st, ast.Return) and ret is None:
             ret = st.value
     elsewhere = set()
     for st in fn.body:
@@ -180,10 +202,12 @@ def target_names(t: ast.AST) -> set:
     return set()
 
 
-def names_in(e: ast.AST) -> List[str]:
+def names_in(e: ast.AST, leaves=()) -> List[str]:
     out = []
 
     def rec(x):
+        if isinstance(x, (ast.Subscript, ast.Attribute, ast.Call)) and ast.unparse(x) in leaves:
+            return
         d = dotted(x)
         if d is not None:
             out.append(d)
@@ -205,18 +229,21 @@ def names_in(e: ast.AST) -> List[str]:
 def translate_function(src: str, tree: ast.Module, spec: dict) -> str:
     """one Lean definition: `def <lean> (params…) : <type> := let … ; <result>`"""
     fn = find_function(tree, spec["func"])
-    binds, ret, elsewhere = straight_line(fn)
-    where = f"{src}:{spec['func']}"
-    env = dict(spec["params"])           # python name / dotted chain → Lean parameter name
+    binds, ret, elsewhere = straight_line(fn, spec.get("static"))
+    where = f"{src}:{spec['func']}" + ("" if not spec.get("static") else " " + str(spec["static"]))
+    env = {}                              # python name / dotted chain / subscript text → Lean parameter name
+    for k, v in spec["params"].items():
+        try:
+            k = ast.unparse(ast.parse(k, mode="eval").body)     # the spelling `ast.unparse` gives (quotes, blanks)
+        except SyntaxError:
+            pass
+        env[k] = v
     tr = Tr(env, where)
     outputs = spec["outputs"]            # python variable names, or "return"
-    # the variables needed: dependency closure from the outputs through the straight-line bindings
-    last: Dict[str, int] = {}
-    for i, (n, _) in enumerate(binds):
-        if n in last and n not in spec.get("rebinding_ok", ()):
-            raise Untranslatable(f"{where}: `{n}` is assigned twice")
-        last.setdefault(n, i)
-    needed: List[int] = []
+    bound = {n for n, _ in binds}
+    # the variables needed: dependency closure from the outputs through *all* straight-line bindings of a name
+    # (a name may be bound again: Lean's `let` shadows exactly as the Python assignment does)
+    needed: set = set()
 
     def need(name: str, via: str):
         if name.startswith("call:"):
@@ -226,28 +253,37 @@ def translate_function(src: str, tree: ast.Module, spec: dict) -> str:
             raise Untranslatable(f"{where}: call of `{f}` (in {via}) is outside the translated fragment")
         if name in env or name == "np.pi":
             return
-        if name in last:
+        if name in bound:
             if name in elsewhere and name not in spec.get("first_binding_only", ()):
                 raise Untranslatable(f"{where}: `{name}` is also assigned inside control flow")
-            i = last[name]
-            if i not in needed:
-                needed.append(i)
-                for m in names_in(binds[i][1]):
-                    need(m, name)
+            if name not in needed:
+                needed.add(name)
+                for n, v in binds:
+                    if n == name:
+                        for m in names_in(v, env):
+                            if m != name:
+                                need(m, name)
             return
         raise Untranslatable(f"{where}: `{name}` (in {via}) is neither an input nor bound by a straight-line assignment")
 
+    if "compare-in-return" in outputs:
+        cmp_ = None if ret is None else next((n for n in ast.walk(ret) if isinstance(n, ast.Compare)), None)
+        if cmp_ is None:
+            raise Untranslatable(f"{where}: no comparison in the returned expression")
+        ret = cmp_
+        outputs = ["return" if o == "compare-in-return" else o for o in outputs]
     for o in outputs:
         if o == "return":
             if ret is None:
                 raise Untranslatable(f"{where}: no return statement")
-            for m in names_in(ret):
+            for m in names_in(ret, env):
                 need(m, "return")
         else:
             need(o, "output")
     lets = []
-    for i in sorted(needed):
-        n, v = binds[i]
+    for n, v in binds:
+        if n not in needed:
+            continue
         lean_n = spec.get("rename", {}).get(n, n)
         lets.append(f"  let {lean_n} := {tr.ex(v)}")
         tr.env[n] = lean_n
@@ -308,7 +344,42 @@ SPECS = [
     dict(src=POS, func="KeplerPosVel.f", lean="trueAnomalySrc", params={"self.kepler.e": "e0", "self.kepler.E": "E0"}, outputs=["return"], type="α"),
 ]
 
-HEADER = '''/- GENERATED by translator/extract_exprs.py from the Python `ast` of the tree under test — do not edit.
+TIME = "midgard/data/_time.py"
+ROWP = {'_TAIUTC["offset"][idx]': "offset", '_TAIUTC["ref_epoch"][idx]': "ref", '_TAIUTC["factor"][idx]': "factor",
+        "time.mjd": "mjd", "Unit.seconds2day": "s2d"}
+TCGP = {"time.jd1": "jd1", "time.jd2": "jd2", "constant.T_0_jd1": "t0jd1", "constant.T_0_jd2": "t0jd2", "constant.L_G": "lG"}
+
+
+def _hop(fn: str, arg: str) -> dict:
+    return dict(src=TIME, group="time", func=fn, lean=fn.lstrip("_") + "Src",
+                params={f"{arg}.jd1": "jd1", f"{arg}.jd2": "jd2", f"delta_tai_utc({arg})": "dTaiUtc", f"delta_tai_tt({arg})": "dTaiTt",
+                        f"delta_tcg_tt({arg})": "dTcgTt", f"delta_gps_tai({arg})": "dGpsTai"},
+                outputs=["return"], type="α × α")
+
+
+SPECS += [
+    # --- _time.py: TAI-UTC from one table row (UTC argument; TAI argument with the closed-form inverse), the row
+    # starts expressed in TAI, the test "this row has started", the constant offsets, TCG-TT, and the eight hops
+    dict(src=TIME, group="time", func="delta_tai_utc", static={"time.scale": "utc"}, lean="deltaTaiUtcOfUtcSrc", params=ROWP, outputs=["return"], type="α"),
+    dict(src=TIME, group="time", func="delta_tai_utc", static={"time.scale": "tai"}, lean="deltaTaiUtcOfTaiSrc", params=ROWP, outputs=["return"], type="α"),
+    dict(src=TIME, group="time", func="delta_tai_utc", static={"time.scale": "tai"}, lean="rowStartDeltaSrc",
+         params={'_TAIUTC["start"]': "start", '_TAIUTC["offset"]': "offset", '_TAIUTC["ref_epoch"]': "ref", '_TAIUTC["factor"]': "factor",
+                 "Unit.seconds2day": "s2d"}, outputs=["start_delta"], type="α"),
+    dict(src=TIME, group="time", func="_taiutc_idx", lean="rowStartedSrc",
+         params={"np.asarray(jd1, dtype=float)[..., None]": "jd1", "np.asarray(jd2, dtype=float)[..., None]": "jd2", '_TAIUTC["start"]': "start",
+                 "start_delta": "startDelta", "_TAIUTC_TOLERANCE": "tol"}, outputs=["compare-in-return"], type="Bool"),
+    dict(src=TIME, group="time", func="delta_tai_tt", static={"time.scale": "tt"}, lean="deltaTaiTtOfTtSrc", params={"Unit.seconds2day": "s2d"}, outputs=["return"], type="α"),
+    dict(src=TIME, group="time", func="delta_tai_tt", static={"time.scale": "tai"}, lean="deltaTaiTtOfTaiSrc", params={"Unit.seconds2day": "s2d"}, outputs=["return"], type="α"),
+    dict(src=TIME, group="time", func="delta_gps_tai", static={"time.scale": "gps"}, lean="deltaGpsTaiOfGpsSrc", params={"Unit.seconds2day": "s2d"}, outputs=["return"], type="α"),
+    dict(src=TIME, group="time", func="delta_gps_tai", static={"time.scale": "tai"}, lean="deltaGpsTaiOfTaiSrc", params={"Unit.seconds2day": "s2d"}, outputs=["return"], type="α"),
+    dict(src=TIME, group="time", func="delta_tcg_tt", static={"time.scale": "tt"}, lean="deltaTcgTtOfTtSrc", params=TCGP, outputs=["return"], type="α"),
+    dict(src=TIME, group="time", func="delta_tcg_tt", static={"time.scale": "tcg"}, lean="deltaTcgTtOfTcgSrc", params=TCGP, outputs=["return"], type="α"),
+    _hop("_utc2tai", "utc"), _hop("_tai2utc", "tai"), _hop("_tai2tt", "tai"), _hop("_tt2tai", "tt"),
+    _hop("_tt2tcg", "tt"), _hop("_tcg2tt", "tcg"), _hop("_gps2tai", "gps"), _hop("_tai2gps", "tai"),
+]
+
+HEADERS = {
+    "geo": ('SourceExprs.lean', '''/- GENERATED by translator/extract_exprs.py from the Python `ast` of the tree under test — do not edit.
 Every definition is the arithmetic of one function of midgard/math/rotation.py, transformation.py, ellipsoid.py or
 midgard/data/position.py, statement by statement (see the translator for the fragment that is translated). -/
 import Midgard.Model.Vec3
@@ -319,26 +390,41 @@ open Midgard.Geo
 section
 variable {α : Type} [Add α] [Sub α] [Mul α] [Div α] [Neg α] [Zero α] [One α] [OfScientific α]
   [LT α] [LE α] [DecidableRel (α := α) (· < ·)] [DecidableRel (α := α) (· ≤ ·)] [Trig α]
-'''
+''', "Midgard.Generated.Src"),
+    "time": ('SourceExprsTime.lean', '''/- GENERATED by translator/extract_exprs.py from the Python `ast` of the tree under test — do not edit.
+Every definition is the arithmetic of one function (one branch of it, where the function branches on the scale) of
+midgard/data/_time.py, statement by statement (see the translator for the fragment that is translated). -/
+
+namespace Midgard.Generated.SrcTime
+
+section
+variable {α : Type} [Add α] [Sub α] [Mul α] [Div α] [Neg α] [Zero α] [One α] [OfScientific α]
+  [LT α] [LE α] [DecidableRel (α := α) (· < ·)] [DecidableRel (α := α) (· ≤ ·)]
+''', "Midgard.Generated.SrcTime"),
+}
 
 
 def generate() -> Tuple[bool, dict]:
     """returns (changed, info); a function that cannot be translated is recorded and its definition left out — the
     tie theorem that mentions it then fails to check, which the property's check reports"""
     trees: Dict[str, ast.Module] = {}
-    defs, failed, done = [], [], []
+    defs: Dict[str, List[str]] = {g: [] for g in HEADERS}
+    failed, done = [], []
     for spec in SPECS:
         src = spec["src"]
+        g = spec.get("group", "geo")
         try:
             if src not in trees:
                 trees[src] = ast.parse((REPO / src).read_text())
-            defs.append(translate_function(src, trees[src], spec))
+            defs[g].append(translate_function(src, trees[src], spec))
             done.append(spec["lean"])
         except (Untranslatable, OSError, SyntaxError) as ex:
             failed.append(f"{spec['lean']}: {ex}")
-            defs.append(f"-- NOT TRANSLATED `{spec['lean']}`: {str(ex)[:300]}")
-    text = HEADER + "\n" + "\n\n".join(defs) + "\n\nend\n\nend Midgard.Generated.Src\n"
-    changed = write_if_changed("SourceExprs.lean", text)
+            defs[g].append(f"-- NOT TRANSLATED `{spec['lean']}`: {str(ex)[:300]}")
+    changed = False
+    for g, (fname, header, ns) in HEADERS.items():
+        text = header + "\n" + "\n\n".join(defs[g]) + f"\n\nend\n\nend {ns}\n"
+        changed |= write_if_changed(fname, text)
     return changed, {"translated": done, "not_translated": failed}
 
 
